@@ -33,7 +33,7 @@ with open(os.path.join(HERE, "seeded", "README.md"), "w") as f:
 
 Each directory holds a change to GrammaTech/gtirb-rewriting: `patch.diff`, `demo.py` (exits 0 on the unchanged tree, 1 with
 the patch) and `meta.json`.  Most were written by independent sub-agents that were given only the text of one property and a
-scratch worktree (nothing from /verif), in two rounds; a few are reversals of the repairs made to the repository (their
+scratch worktree (nothing from /verif), in six rounds (see DESIGN.md section 8); a few are reversals of the repairs made to the repository (their
 `meta.json` says so).  Every change was confirmed in a scratch worktree (demo fails with / passes without the patch; pytest
 still 331 passed, 2 e2e baseline failures).  None of them is ever committed to /repo.  `./tools_run_seeded.sh [ids]` applies
 each one to /repo in turn, runs the property's quick check, writes the outcome to `seeded/results/<id>.txt` and undoes the
